@@ -201,6 +201,8 @@ pub struct CmdModel {
     pub expect_api_err: bool,
     /// index into the shim's action list (k-th callback that consumes an Act)
     pub act_index: Option<usize>,
+    /// C15 probe program
+    pub probe: bool,
 }
 
 #[derive(Clone, Debug)]
@@ -467,6 +469,26 @@ pub fn program_units(p: &Program) -> Vec<ExpUnit> {
     out
 }
 
+/// the token the shim returns, if the interpreter reaches the `ret_err` point at all (a
+/// terminal close of the last unit returns before an at-the-end `ret_err`)
+pub fn ret_err_reached(p: &Program) -> Option<u32> {
+    let (at, tok) = p.ret_err?;
+    let n = p.units.len();
+    if (at as usize) < n {
+        return Some(tok);
+    }
+    let early_return = match p.units.last() {
+        Some(Unit::Rows(r)) => r.close != Close::FinishOne,
+        Some(Unit::Count { .. }) => p.end == End::Implicit,
+        None => false,
+    };
+    if early_return {
+        None
+    } else {
+        Some(tok)
+    }
+}
+
 fn program_has_contra(p: &Program) -> bool {
     p.units.iter().any(|u| match u {
         Unit::Rows(r) => match &r.contra {
@@ -540,6 +562,7 @@ pub fn build(plan: &Plan) -> Model {
             live,
             expect_api_err: false,
             act_index: None,
+            probe: false,
         };
         // client-side type knowledge is tracked even for dead commands (the encoder needs it)
         match &c.kind {
@@ -731,7 +754,7 @@ pub fn build(plan: &Plan) -> Model {
         }
         cmds.push(m);
     }
-    let end = if hostile {
+    let end = if hostile || cmds.iter().any(|c| c.probe) {
         EndOfConn::Any
     } else {
         ended.unwrap_or(EndOfConn::Ok)
@@ -757,7 +780,7 @@ fn apply_act(m: &mut CmdModel, act: &Act, acts: &mut Vec<Act>, default_on_init: 
     acts.push(act.clone());
     match act {
         Act::Program(p) if !is_init => {
-            if let Some((_, tok)) = p.ret_err {
+            if let Some(tok) = ret_err_reached(p) {
                 m.reply = Reply::Unconstrained;
                 m.ends = Some(EndOfConn::Token(tok));
             } else if program_has_contra(p) {
@@ -765,8 +788,10 @@ fn apply_act(m: &mut CmdModel, act: &Act, acts: &mut Vec<Act>, default_on_init: 
                 m.ends = Some(EndOfConn::IoErr);
                 m.expect_api_err = true;
             } else if p.probe_cells {
+                // the reply is decoded by grammar but judged by the C15 oracle; whether the
+                // connection survives depends on what the tree refuses
                 m.reply = Reply::Unconstrained;
-                m.ends = Some(EndOfConn::Any);
+                m.probe = true;
             } else {
                 m.reply = Reply::Units(program_units(p));
             }
